@@ -70,6 +70,17 @@ func fpPackage() []int {
 	hashFp(h, &bandersnatch.CurveParams.D)
 	hashFp(h, &bandersnatch.CurveParams.Base.X)
 	hashFp(h, &bandersnatch.CurveParams.Base.Y)
+	// the square-root tables of package fp (read by every point decoding)
+	for i := 0; i < fp.VerifSqrtBlocks; i++ {
+		for j := 0; j < 1<<fp.VerifSqrtBlockSize; j++ {
+			t := fp.VerifSqrtBlockEntry(i, j)
+			hashFp(h, &t)
+		}
+	}
+	for i := 0; i <= 32; i++ {
+		t := fp.VerifSqrtDyadicRoot(i)
+		hashFp(h, &t)
+	}
 	for _, l := range multiproof.VerifLabels() {
 		h.Write(l)
 		h.Write([]byte{0})
@@ -289,6 +300,17 @@ func (d *driver) runPurityProgram(w emitter, pid int, line []byte) {
 				var e2 banderwagon.Element
 				_ = e2.SetBytes(valid[:32])
 				_ = e2.SetBytesUncompressed(append(append([]byte(nil), valid[:32]...), valid[32:64]...), false)
+				// the special elements: the identity in both representatives, the generator, an SRS point, through every decoder
+				for _, src := range []banderwagon.Element{banderwagon.Identity, rescaled(banderwagon.Identity, big.NewInt(1), true), banderwagon.Generator, cfg.SRS[o.A%256]} {
+					b := src.Bytes()
+					u := src.BytesUncompressedTrusted()
+					var e3 banderwagon.Element
+					_ = e3.SetBytes(b[:])
+					_ = e3.SetBytesUnsafe(b[:])
+					_ = e3.SetBytesUncompressed(u[:], false)
+					_ = e3.SetBytesUncompressed(u[:], true)
+					_, _ = common.ReadPoint(bytes.NewReader(b[:]))
+				}
 				unchanged = bytes.Equal(valid, vb)
 			case "transcript":
 				tr := common.NewTranscript("purity-tr")
